@@ -293,6 +293,17 @@ impl Property for C06 {
                     }
                 };
                 let res = lib_call("from_der(malformed)", || Signature::from_der(&bad))?;
+                // the mutations of classes 0-2 can land on another well-formed encoding (30 07 02 01 01 02 02 01 01 with the first
+                // integer's length raised reads as r=0x0102, s=1): the reference strict decoder says which ones are malformed
+                if let Some((r2, s2)) = codec::der_decode_sig(&bad) {
+                    if !r2.is_zero() && !s2.is_zero() && r2 < n && s2 < n {
+                        let sig = res.map_err(|e| failure("wellformed_mutation_accepted", format!("Err({}) for {}", e, hex::encode(&bad)), "Ok: a strict DER signature with r and s in range"))?;
+                        ensure_eq_hex!(hex::decode(sig.r_hex()).unwrap_or_default(), secp::be32(&r2).to_vec(), "wellformed_mutation_r");
+                        ensure_eq_hex!(hex::decode(sig.s_hex()).unwrap_or_default(), secp::be32(&s2).to_vec(), "wellformed_mutation_s");
+                        o.label("mutation-landed-on-a-well-formed-encoding");
+                        return Ok(o);
+                    }
+                }
                 if let Ok(sig) = res {
                     return Err(failure("malformed_der_rejected", format!("Ok(r={} s={}) for {} (class {})", sig.r_hex(), sig.s_hex(), hex::encode(&bad), kind % 12), "Err"));
                 }
